@@ -21,14 +21,12 @@ def run(ctx):
     g2 = ctx.instance("G2_C37", "BackupImpl", GEN_W, dict(base, Keys={1, 2, 3} if ctx.thorough else {1, 2}, Datas={"a", "c", "L"},
                                                            MaxOps=6 if ctx.thorough else 5))
     h = [x for x in ctx.generate(g2, workers=4, timeout=1800) if x[-1]["ev"] == "backup"]
-    if not ctx.thorough:
-        h = rng.sample(h, min(len(h), 250))
+    h = rng.sample(h, min(len(h), 4000 if ctx.thorough else 250))
     hists += h
     # schedules after which the MODEL's backup differs from the source: replayed on the real procedure
     gd = ctx.instance("GD_C37", "BackupImpl", GEN_DIV, dict(base, Keys={1, 2, 3}, Datas={"a", "L"}, MaxOps=6 if ctx.thorough else 5))
     hd = ctx.generate(gd, workers=4, timeout=1800)
-    if not ctx.thorough:
-        hd = rng.sample(hd, min(len(hd), 60))
+    hd = rng.sample(hd, min(len(hd), 1500 if ctx.thorough else 60))
     hists += hd
     g3 = ctx.instance("G3_C37", "BackupImpl", GEN_ALL, dict(base, Keys={1, 2, 3}, Datas={"a", "b", "c", "L"}, MaxOps=12))
     hists += [x + [{"ev": "backup"}] for x in ctx.generate(g3, simulate=400 if ctx.thorough else 50, depth=13)]
@@ -63,7 +61,7 @@ def run(ctx):
                 "random depth 12; the source is one volume of a real volume server (HTTP + vacuum RPCs), `backup` runs the real "
                 "`weed backup` procedure against it; every key is read on the source after every step and on the backup (real "
                 "Store on the backup directory) after every backup; non-trivial = >= 2 backups or a compaction followed by a backup")
-    ctx.exhaustive = ctx.thorough
+    ctx.exhaustive = False
     ctx.assumptions += ["payload tokens a and c have the same length (an overwrite that changes content but not size), b and L differ",
                         "one cookie, non-empty payloads without metadata (the C01 findings are avoided)",
                         "append times are real wall-clock nanoseconds; the model's logical clock only orders them",
